@@ -13,8 +13,8 @@ Local Arguments addn : simpl never.
 Local Arguments has_fst : simpl never.
 Local Arguments pair_eqb : simpl never.
 
-Ltac wsimpl := cbn [w_led w_funcs w_active w_delayed w_pending w_zombie w_running w_auto w_next w_log
-                    set_led led_log set_active set_delayed set_pending set_zombie set_running set_auto fst snd
+Ltac wsimpl := cbn [w_led w_funcs w_active w_delayed w_pending w_zombie w_running w_starting w_hdl w_auto w_next w_log
+                    set_led led_log set_active set_delayed set_pending set_zombie set_running set_starting set_hdl set_auto fst snd
                     l_state l_event l_bus l_tasks l_reap l_svc set_state set_evbus set_tasks set_reap set_svc] in *.
 
 (* ============================================================================================== *)
@@ -370,7 +370,7 @@ Record led_ok (W : world) : Prop := {
      (o = 0 /\ has_fst ev (l_event (w_led W)) = true) \/
      (In o (w_running W) /\ exists f u, owns W f u /\ u_id u = o /\ u_event u = Some ev /\ f_new f = true);
   ok_tasks : forall t, In t (l_tasks (w_led W)) -> In t (l_reap (w_led W)) \/ In t (w_pending W) \/ In t (w_running W);
-  ok_svc : forall g, In g (l_svc (w_led W)) -> In g (w_active W) /\ exists f, In f (w_funcs W) /\ f_gen f = g /\ f_svc f = true /\
+  ok_svc : forall g, In g (l_svc (w_led W)) -> In g (w_active W) /\ exists f, In f (w_funcs W) /\ f_gen f = g /\ is_some (f_svc f) = true /\
              (f_new f = true -> ~ In g (w_delayed W))
 }.
 
@@ -450,7 +450,7 @@ Qed.
 Lemma leg_unit_stop_inv cfg W f u : all_off cfg -> Inv W -> owns W f u -> f_new f = false ->
   Inv (leg_unit_stop cfg W u) /\ stop_post W (leg_unit_stop cfg W u) (u_id u).
 Proof.
-  intros [D16 [_ D91]] [I [S L]] O NF. unfold leg_unit_stop, leg_stop_pending, leg_stop_running. rewrite D91, D16.
+  intros [D16 [_ [D91 _]]] [I [S L]] O NF. unfold leg_unit_stop, leg_stop_pending, leg_stop_running. rewrite D91, D16.
   set (id := u_id u).
   destruct (memn id (w_pending W)) eqn:MP.
   { (* stopped while pending: nothing subscribed yet *)
